@@ -252,7 +252,9 @@ class World:
         self.stepno += 1
         e = {"ctx": None, "kill": None, "chal": [], "unl": None, "silent": False,
              "req_q": [], "pw_trigger": None, "more": {}, "noise": False, "kind": op["op"],
-             "stats": False, "config": False}
+             "stats": False, "config": False,
+             # the line travels inside a backlog of requests for reports: their answers share the step
+             "reports": op.get("padkind") == "stats" and bool(op.get("pad"))}
         k = op["op"]
         if k == "announce":
             cid = op["cid"]
@@ -554,7 +556,7 @@ class World:
             elif cmd == "U":
                 i.u_line = g["word"]
         # ---- per-step expectations
-        if e["silent"] and any(parse_out(l)[0] != ">" for l in lines):
+        if e["silent"] and any(parse_out(l)[0] != ">" and not (e.get("reports") and parse_out(l)[0] in ("S", "s", "A", "a")) for l in lines):
             self.v("C04", "stray-output", "a reply/line that must be ignored produced output: %r" % lines[:3])
         if e["kind"] == "noise" and any(parse_out(l)[0] != ">" for l in lines):
             self.v("C08", "junk-output", "a junk line produced output other than an operator notice: %r" % lines[:3])
